@@ -150,7 +150,7 @@ r`
 func HarnessC10ThreadsAndSpawnArguments() {
 	a, b := verifrt.Int64(), verifrt.Int64()
 	env := (&scriptEnv{}).addInt("a", a).addInt("b", b)
-	switch verifrt.Choose(10) {
+	switch verifrt.Choose(12) {
 	case 5:
 		// wait() may be called more than once and by more than one goroutine
 		run, _ := runConcurrent(`t := spawn(func(p) { return p + 1 }, a); x := t.wait(); y := t.wait(); x + y`, env)
@@ -202,6 +202,23 @@ func HarnessC10ThreadsAndSpawnArguments() {
 			_, isErr := run.result.(*object.Error)
 			s, isStr := run.result.(*object.String)
 			verifrt.Assert(isErr || (isStr && s.Value() == "caught"), "wait-surfaces-the-error")
+		}
+	case 10:
+		// a spawned call that panics in Go (division by zero): wait() raises an error
+		run, _ := runConcurrent(`z := 0; t := spawn(func() { return 1 / z }); try(func() { t.wait(); return "no error" }, func(e) { return "caught" })`, env)
+		verifrt.Assert(run.stage == "ok", "runs:"+run.stage)
+		if run.stage == "ok" {
+			sv, isStr := run.result.(*object.String)
+			verifrt.Assert(isStr && sv.Value() == "caught", "wait-surfaces-a-panic-of-the-spawned-call-as-an-error")
+		}
+	case 11:
+		// go statements are stack-neutral (C04) also under concurrency
+		run, _ := runConcurrent(`ch := chan(3); for i := 0; i < 3; i++ { go func(v) { ch <- v }(a) }; x := <-ch; y := <-ch; z := <-ch; x + y + z`, env)
+		verifrt.Assert(run.stage == "ok", "runs:"+run.stage)
+		if run.stage == "ok" {
+			iv, ok := asInt(run.result)
+			verifrt.Assert(ok && iv == 3*a, "values-sent-by-go-statements-arrive")
+			verifrt.Assert(run.machine.sp == 0, "go-statements-leave-nothing-on-the-stack")
 		}
 	case 8:
 		// a goroutine started by a goroutine outlives its starter
@@ -258,6 +275,41 @@ func HarnessC10ClosedChannels() {
 	verifrt.Reach("done")
 }
 
+
+// HarnessC10TwoReceiversAndClose: two goroutines receive (with <-) from a
+// buffered channel that holds one value and is then closed: one gets the value,
+// the other gets nil, and both return.
+func HarnessC10TwoReceiversAndClose() {
+	verifrt.SchedPreemptBeforeChanOps(true)
+	a := verifrt.Int64()
+	verifrt.Assume(a != 0)
+	env := (&scriptEnv{}).addInt("a", a)
+	src := `ch := chan(2)
+out := chan(2)
+go func() { out <- [<-ch] }()
+go func() { out <- [<-ch] }()
+ch <- a
+close(ch)
+r1 := <-out
+r2 := <-out
+[r1[0], r2[0]]`
+	run, _ := runConcurrent(src, env)
+	verifrt.Assert(run.stage == "ok", "runs:"+run.stage)
+	if run.stage != "ok" {
+		return
+	}
+	verifrt.Reach("done")
+	l, ok := run.result.(*object.List)
+	verifrt.Assert(ok && len(l.Value()) == 2, "two-results")
+	if !ok || len(l.Value()) != 2 {
+		return
+	}
+	x, y := l.Value()[0], l.Value()[1]
+	xi, xIsInt := asInt(x)
+	yi, yIsInt := asInt(y)
+	valueOnce := (xIsInt && xi == a && y == object.Nil) || (yIsInt && yi == a && x == object.Nil)
+	verifrt.Assert(valueOnce, "one-receiver-gets-the-value-the-other-nil")
+}
 
 // HarnessC10NilValues: nil is an ordinary value on a channel and does not end iteration.
 // (Two goroutines ranging over one channel lose/duplicate values on the pinned tree
